@@ -907,15 +907,12 @@ class sptensor:
         >>> S.innerprod(K)
         3.0
         """
-        # If all entries are zero innerproduct must be 0
-        if self.nnz == 0:
-            return 0
-
         if isinstance(other, ttb.sptensor):
             if self.shape != other.shape:
                 assert False, "Sptensors must be same shape for innerproduct"
 
-            if other.nnz == 0:  # other sptensor is all zeros
+            # If all entries of either are zero innerproduct must be 0
+            if self.nnz == 0 or other.nnz == 0:
                 return 0
 
             if self.nnz < other.nnz:
@@ -929,6 +926,8 @@ class sptensor:
         if isinstance(other, ttb.tensor):
             if self.shape != other.shape:
                 assert False, "Sptensor and tensor must be same shape for innerproduct"
+            if self.nnz == 0:
+                return 0
             [subsSelf, valsSelf] = self.find()
             valsOther = np.atleast_1d(other[subsSelf])
             return valsOther.transpose().dot(valsSelf).item()
